@@ -170,6 +170,25 @@ def check (prop : String) (inp out : List String) : Verdict :=
       { agree := m == impl, model := if m then "1" else "0",
         specFail := failing [("compat_iff", impl == (ma == Consts.versionMajor && mi == Consts.versionMinor))] }
     | _, _, _, _ => .bad "compat tokens"
+  | ["hs", how, control, command, failsafe, stream, nameHex] =>
+    -- the session frame a real client put on a real socket (stub daemon), per ClientBuilder option set / convenience function
+    match hexBytes? nameHex, out with
+    | some name, [flagsTok, gotNameHex] =>
+      let unix := how.startsWith "u"
+      let builder := how.endsWith "b"
+      let safe := how == "us" || how == "ts"
+      let (c, m, f, st) := if builder then (control == "1", command == "1", failsafe == "1", stream == "1") else (false, false, safe, false)
+      let wantFlags := clientFlags unix c m f st
+      let wantName := name.take 64
+      let impl := match flagsTok.toNat?, hexBytes? gotNameHex with
+        | some fl, some n => some (fl, n)
+        | _, _ => none
+      { agree := impl == some (wantFlags, wantName), model := s!"{wantFlags} {hexOf wantName}",
+        specFail := failing [
+          ("client_sends_a_session", impl.isSome),
+          ("failsafe_registered_iff_asked", match impl with | some (fl, _) => wantsFailsafe fl == f | none => true),
+          ("streaming_asked_iff_option", match impl with | some (fl, _) => wantsStream fl == st | none => true) ] }
+    | _, _ => .bad "hs tokens"
   | ["id", instTok] =>
     -- the daemon's identity as a client decodes it from the handshake reply
     match parsePacket? .inst instTok, out with
